@@ -19,6 +19,7 @@ import (
 	"strconv"
 	"strings"
 	"sync"
+	"sync/atomic"
 	"time"
 
 	"github.com/Comcast/sheens/core"
@@ -551,6 +552,78 @@ func (p *isoProgram) exec(route int, bs match.Bindings, props core.StepProps) (r
 	return res
 }
 
+// isoBrokenStaysBroken: a source that does not compile fails every time it is handed over for execution, whatever was
+// executed before it (nothing of an earlier program runs in its place)
+func isoBrokenStaysBroken() bool {
+	ctx, cancel := context.WithTimeout(context.Background(), 20*time.Second)
+	defer cancel()
+	ok := true
+	func() {
+		defer func() {
+			if r := recover(); r != nil {
+				ok = false
+			}
+		}()
+		good := `_.out({"from": "good"}); return {"ran": "good"};`
+		broken := `return (((;`
+		if _, err := sharedInterpreter.Exec(ctx, match.Bindings{}, nil, good, nil); err != nil {
+			ok = false
+		}
+		for i := 0; i < 3; i++ {
+			exe, err := sharedInterpreter.Exec(ctx, match.Bindings{"n": float64(i)}, nil, broken, nil)
+			if err == nil {
+				ok = false
+			}
+			if exe != nil && (exe.Bs != nil || (exe.Events != nil && len(exe.Events.Emitted) > 0)) {
+				ok = false // nothing ran: there is nothing to show for it
+			}
+		}
+		// and the other way round: a good source after a broken one runs as itself
+		exe, err := sharedInterpreter.Exec(ctx, match.Bindings{}, nil, `return {"ran": "second"};`, nil)
+		if err != nil || exe == nil || exe.Bs["ran"] != "second" {
+			ok = false
+		}
+	}()
+	return ok
+}
+
+// isoGetterEnvOwn: the result of a script is exported after its body returned (getters of the returned object run then):
+// the environment object `_` those getters see is still this execution's own, however many executions overlap
+var isoGetterRuns int
+
+func isoGetterEnvOwn() bool {
+	isoGetterRuns++
+	src := `var me = _.bindings.who; return {get who() { var t = 0; for (var i = 0; i < 60000; i++) { t += i; } return _.bindings.who; }, me: me};`
+	compiled, err := sharedInterpreter.Compile(context.Background(), src)
+	if err != nil {
+		return true
+	}
+	var bad int32
+	var wg sync.WaitGroup
+	for g := 0; g < 12; g++ {
+		wg.Add(1)
+		go func(g int) {
+			defer wg.Done()
+			defer func() {
+				if r := recover(); r != nil {
+					atomic.StoreInt32(&bad, 1)
+				}
+			}()
+			for rep := 0; rep < 4; rep++ {
+				ctx, cancel := context.WithTimeout(context.Background(), 20*time.Second)
+				who := fmt.Sprintf("g%d-%d", g, rep)
+				exe, err := sharedInterpreter.Exec(ctx, match.Bindings{"who": who}, nil, src, compiled)
+				cancel()
+				if err != nil || exe == nil || exe.Bs["who"] != who || exe.Bs["me"] != who {
+					atomic.StoreInt32(&bad, 1)
+				}
+			}
+		}(g)
+	}
+	wg.Wait()
+	return bad == 0
+}
+
 var isoNoAssignProg *isoProgram
 
 // isoNoAssignIntact: the source contains no '=', '++', '--' or 'delete', yet it sorts, reverses, extends and redefines
@@ -742,6 +815,14 @@ func runIsoCase(o *Out, c *isoCase) {
 		// a script without a single assignment operator that changes what it was given through built-in methods
 		stable = false
 		o.count("caller-changed-by-method-calls")
+	}
+	if c.Par && isoGetterRuns < 3 && !isoGetterEnvOwn() {
+		stable = false
+		o.count("getter-saw-another-executions-environment")
+	}
+	if !isoBrokenStaysBroken() {
+		stable = false
+		o.count("broken-source-ran")
 	}
 	if !isoUnwritableIntact(c.Route) {
 		// bindings that hold a value JSON cannot write (NaN, Inf): whatever Exec makes of them (it fails), the script
